@@ -201,6 +201,8 @@ type faultNet struct {
 	events     []string
 	t0         time.Time
 	helSeen    int
+	lastS2C    time.Time // last frame that came from the server
+	lastAccept time.Time // last time a new connection showed up
 }
 
 func newFaultNet(upstream string) (*faultNet, error) {
@@ -248,10 +250,14 @@ func (n *faultNet) hook(dir netx.Dir, idx int, frame []byte) [][]byte {
 	cs := n.conns[key]
 	if cs == nil {
 		cs = &connSt{serial: n.nextSerial, reqs: map[uint32]string{}}
+		n.lastAccept = time.Now()
 		n.nextSerial++
 		n.conns[key] = cs
 	}
 	cs.count[dir]++
+	if dir == netx.S2C {
+		n.lastS2C = time.Now()
+	}
 	lb := label(dir, frame, cs)
 	if lb == "c2s:HEL" {
 		n.helSeen++
@@ -268,7 +274,9 @@ func (n *faultNet) hook(dir netx.Dir, idx int, frame []byte) [][]byte {
 		switch tr.fault.Kind {
 		case "rst", "fin", "restart", "refuse":
 			n.doomed = n.nextSerial
-			out = nil
+			if !tr.fault.After {
+				out = nil
+			}
 		case "cut":
 			n.doomed = n.nextSerial
 			k := tr.fault.K
@@ -287,7 +295,8 @@ func (n *faultNet) hook(dir netx.Dir, idx int, frame []byte) [][]byte {
 		}
 		n.logf("conn %d %s (%d bytes) TRIGGERS %s", cs.serial, lb, len(frame), tr.fault.Kind)
 		tr.ch <- fi
-		if out == nil || tr.fault.Kind == "cut" {
+		if n.doomed == n.nextSerial {
+			// the connection ends here (with nothing, a part of the frame or the whole frame)
 			n.mu.Unlock()
 			return out
 		}
@@ -371,6 +380,21 @@ func (n *faultNet) heal() {
 	n.logf("HEAL")
 	n.mu.Unlock()
 	n.tap.Refuse(false)
+}
+
+// idleFor tells for how long neither a new connection carried a frame nor the
+// server sent anything.
+func (n *faultNet) idleFor() time.Duration {
+	n.mu.Lock()
+	defer n.mu.Unlock()
+	last := n.lastS2C
+	if n.lastAccept.After(last) {
+		last = n.lastAccept
+	}
+	if last.IsZero() {
+		last = n.t0
+	}
+	return time.Since(last)
 }
 
 func (n *faultNet) remaining() time.Duration {
